@@ -209,12 +209,23 @@ func runC16Faults(c *sim.Ctx, t *testing.T) {
 				ctl = &core.Control{Limit: l}
 			}
 		}
+		// the request's own context may already be over (a client that went away) while the
+		// service and its store are up: whatever the operation then reports, memory and store
+		// have to agree (only for operations that run no script: what a cancelled context does
+		// to a script is C11's subject)
+		opctx := ctx
+		if (op.kind == "add" || op.kind == "rem") && c.Chance(1, 6, "cancelledrequest") {
+			cctx, cancel := context.WithCancel(ctx)
+			cancel()
+			opctx = cctx
+			c.Count("requests_with_cancelled_context")
+		}
 		if c.Guard(cwOpString(op), func() {
 			switch op.kind {
 			case "add":
-				oerr = svc.AddMachine(ctx, "recorder", op.id, "start", nil)
+				oerr = svc.AddMachine(opctx, "recorder", op.id, "start", nil)
 			case "rem":
-				oerr = svc.RemMachine(ctx, op.id)
+				oerr = svc.RemMachine(opctx, op.id)
 			case "process":
 				_, oerr = svc.Process(ctx, svJSONCopy(op.msg), ctl)
 			case "getcrew":
